@@ -18,7 +18,7 @@ def configs(tier):
     return [
         {"name": "sb4096-f10", "sb": 4096, "lens": shapes, "atts": [0, 3], "maxfault": 10, "mixes": [2, 3]},
         {"name": "sb8192-f10", "sb": 8192, "lens": shapes, "atts": [0, 3], "maxfault": 10, "mixes": [2]},
-        {"name": "sys-f10", "sb": None, "lens": shapes, "atts": [0, 3], "maxfault": 10, "mixes": [2], "limit": 6000,
+        {"name": "sys-f6", "sb": None, "lens": shapes, "atts": [0, 3], "maxfault": 6, "mixes": [2], "limit": 6000,
          "liveness": False},
     ]
 
